@@ -31,8 +31,9 @@ import (
 // memTransport hands the request frame to the processor in-process (the server side of
 // FSimpleServer/NATS/HTTP without the wire): one input buffer per request, one output buffer.
 type memTransport struct {
-	proc frugal.FProcessor
-	pf   *frugal.FProtocolFactory
+	proc  frugal.FProcessor
+	pf    *frugal.FProtocolFactory
+	limit uint // > 0: the reply buffer is bounded like fNatsServer.processFrame's (1 MiB there)
 }
 
 func (m *memTransport) SetMonitor(frugal.FTransportMonitor) {}
@@ -44,7 +45,7 @@ func (m *memTransport) GetRequestSizeLimit() uint           { return 0 }
 func (m *memTransport) process(payload []byte) ([]byte, error) {
 	in := thrift.NewTMemoryBuffer()
 	in.Write(payload[4:])
-	out := frugal.NewTMemoryOutputBuffer(0)
+	out := frugal.NewTMemoryOutputBuffer(m.limit)
 	if err := m.proc.Process(m.pf.GetProtocol(in), m.pf.GetProtocol(out)); err != nil {
 		return nil, err
 	}
@@ -141,6 +142,7 @@ func runRPC(d *Defs, svcKey, methodKey, payload string) string {
 
 	var mu sync.Mutex
 	var calls []invocation
+	bigOutcome := false
 	handlerDone := make(chan struct{}, 8)
 	var handlerHdrs string
 	call := func(service, m string, fctx frugal.FContext, args []interface{}, ret interface{}) error {
@@ -154,6 +156,17 @@ func runRPC(d *Defs, svcKey, methodKey, payload string) string {
 			}
 		}
 		defer func() { handlerDone <- struct{}{} }()
+		if bigOutcome && ret != nil {
+			rv := reflect.ValueOf(ret).Elem()
+			big := strings.Repeat("A", 16384)
+			switch rv.Kind() {
+			case reflect.String:
+				rv.SetString(big)
+			case reflect.Slice:
+				rv.SetBytes([]byte(big))
+			}
+			return nil
+		}
 		switch outcome[0] {
 		case 'v':
 			if ret != nil && len(outcome) > 1 {
@@ -282,6 +295,8 @@ func runRPC(d *Defs, svcKey, methodKey, payload string) string {
 			}
 		}()
 		tr = frugal.NewFNatsTransport(cconn, subject, "")
+	case "bounded":
+		tr = &memTransport{proc: proc, pf: pf, limit: 4096}
 	default:
 		tr = &memTransport{proc: proc, pf: pf}
 	}
@@ -313,6 +328,35 @@ func runRPC(d *Defs, svcKey, methodKey, payload string) string {
 			assign(d, pv, f.Ty, fv)
 		}
 		in = append(in, pv)
+	}
+	preSeg := ""
+	if transportKind == "bounded" {
+		// first an oversized reply (the handler returns 16 KiB for a 4 KiB reply buffer), then the real call:
+		// the caller of the first must be told RESPONSE_TOO_LARGE, and the second must be served normally
+		saved := outcome
+		bigOutcome = true
+		pre := mv.Call(in)
+		bigOutcome = false
+		outcome = saved
+		select {
+		case <-handlerDone:
+		case <-time.After(2 * time.Second):
+		}
+		pe := pre[len(pre)-1]
+		preSeg = " || P pre=ok"
+		if !pe.IsNil() {
+			if te, ok := pe.Interface().(thrift.TTransportException); ok && te.TypeId() == frugal.TRANSPORT_EXCEPTION_RESPONSE_TOO_LARGE {
+				preSeg = " || P pre=responseTooLarge"
+			} else {
+				preSeg = " || P pre=" + errClass(pe.Interface().(error))
+			}
+		}
+		mu.Lock()
+		calls = nil
+		mu.Unlock()
+		trMu.Lock()
+		clientTrace, procTrace = nil, nil
+		trMu.Unlock()
 	}
 	outv := mv.Call(in)
 	// oneway over HTTP: the handler may still be running when the client returns
@@ -409,6 +453,7 @@ func runRPC(d *Defs, svcKey, methodKey, payload string) string {
 		cidOK = "cid=" + cidSeen
 	}
 	out := fmt.Sprintf("calls=%d args=%s %s result=%s", ncalls, argsDump, cidOK, result)
+	out += preSeg
 	mu.Lock()
 	out += " || H hdr=" + handlerHdrs + " rsp=" + userPairs(fctx.ResponseHeaders())
 	mu.Unlock()
